@@ -177,7 +177,25 @@ type scripted struct {
 	reenter   func()
 	reenterAt int
 	failed    bool // an error or EOF has been reported to the caller
+	// pauseAt, when positive: sleep `pause` before answering the pauseAt-th Read (a slow source)
+	pauseAt int
+	pause   time.Duration
+	// resumeErr, when set: the first time the bytes run dry the reader reports this error instead of
+	// io.EOF and, from the next Read on, delivers resumeBytes (a transient failure)
+	resumeErr   error
+	resumeBytes []byte
 }
+
+type timeoutErr struct{}
+
+func (timeoutErr) Error() string   { return "i/o timeout (injected)" }
+func (timeoutErr) Timeout() bool   { return true }
+func (timeoutErr) Temporary() bool { return true }
+
+// errorKinds: what a failing random source may report. None of them makes the failure less of one.
+var errorKinds = []error{errInjected, syscall.EINTR, syscall.EAGAIN, fmt.Errorf("read /dev/urandom: %w", syscall.EINTR), timeoutErr{},
+	io.ErrUnexpectedEOF, io.ErrNoProgress, os.ErrDeadlineExceeded, &os.PathError{Op: "read", Path: "/dev/urandom", Err: syscall.EAGAIN}}
+
 
 var errInjected = fmt.Errorf("injected read failure")
 
@@ -186,6 +204,9 @@ var reentryBlocked bool
 
 func (s *scripted) Read(buf []byte) (int, error) {
 	s.reads++
+	if s.pauseAt > 0 && s.reads == s.pauseAt {
+		time.Sleep(s.pause)
+	}
 	r := resp{give: len(buf)}
 	if len(s.plan) > 0 {
 		r = s.plan[0]
@@ -222,6 +243,12 @@ func (s *scripted) Read(buf []byte) (int, error) {
 	}
 	if d < k {
 		s.failed = true
+		if s.resumeErr != nil {
+			err := s.resumeErr
+			s.resumeErr = nil
+			s.bytes = append(s.bytes[:s.pos], s.resumeBytes...)
+			return d, err
+		}
 		return d, io.EOF
 	}
 	return d, nil
